@@ -227,8 +227,8 @@ Record fdyn := mkFdyn {
   fd_var : N; fd_params : list N; fd_body : list Resolved.stmt;
   fd_sc : list N;                 (* the global values its body sees *)
   fd_fl : list (N * nat);         (* the functions its body can call: the earlier ones and itself *)
-  fd_g : nat; fd_k : nat; fd_scout : list N;
-  fd_code : list ir; fd_c : N; fd_c' : N; fd_lut : alut;
+  fd_g : nat; fd_k : nat; fd_scout : list N * list (N * nat);
+  fd_code : list ir; fd_ctx : N; fd_c : N; fd_c' : N; fd_lut : alut;
   fd_cf : nat; fd_ci : nat; fd_ef : senv;            (* Sylt: cell of the name, closure index, closure environment *)
   fd_pf : positive; fd_fid : positive; fd_Ef : env   (* Lua: cell of the name, closure id, closure environment *)
 }.
@@ -236,10 +236,20 @@ Record fdyn := mkFdyn {
 Record world := mkWorld {
   w_IS : nat -> sval -> Prop;          (* Sylt cells with a fixed content *)
   w_IL : positive -> value -> Prop;    (* Lua cells with a fixed content *)
-  w_funs : list fdyn
+  w_CS : nat -> SyltSem.closure -> Prop;     (* Sylt closure-table entries that stay *)
+  w_CL : positive -> closure -> Prop;        (* Lua closure-table entries that stay *)
+  w_funs : list fdyn                   (* the functions that can be called by name: all of them are visible *)
 }.
 
 Definition fnames (fl : list (N * nat)) : list N := map fst fl.
+
+(* a world that fixes at least what another one fixes *)
+Definition wsub (W W' : world) : Prop :=
+  (forall c x, w_IS W c x -> w_IS W' c x) /\ (forall p lv, w_IL W p lv -> w_IL W' p lv) /\
+  (forall ci cl, w_CS W ci cl -> w_CS W' ci cl) /\ (forall fid c, w_CL W fid c -> w_CL W' fid c).
+Lemma wsub_refl W : wsub W W. Proof. repeat split; auto. Qed.
+Lemma wsub_trans W1 W2 W3 : wsub W1 W2 -> wsub W2 W3 -> wsub W1 W3.
+Proof. intros (A & B & C & D) (A' & B' & C' & D'). repeat split; auto. Qed.
 
 Section Rel.
 Variable pv : N.       (* the id of the external print *)
@@ -252,8 +262,8 @@ Definition fvis (d : fdyn) (g : N) : Prop := In g (fd_sc d) \/ In g (fnames (fd_
 
 (* the facts about a function that never change *)
 Record fstatic (d : fdyn) : Prop := mkFstatic {
-  fs_lower : lower_fbody (statement (fd_g d)) (expression (fd_g d)) (fd_body d) 0 (fd_c d) = Ok (fd_code d, fd_c' d);
-  fs_frag : frag_stmts pv sv bound (fd_fl d) (fd_k d) (rev (fd_params d) ++ fd_sc d) (fd_body d) = Some (fd_scout d);
+  fs_lower : lower_fbody (statement (fd_g d)) (expression (fd_g d)) (fd_body d) (fd_ctx d) (fd_c d) = Ok (fd_code d, fd_c' d);
+  fs_frag : frag_body pv sv bound (fd_k d) (fd_fl d) (rev (fd_params d) ++ fd_sc d) (fd_body d) = Some (fd_scout d);
   fs_params : params_ok pv sv bound (fd_fl d) (fd_sc d) (fd_params d) = true;
   fs_self : In (fd_var d, length (fd_params d)) (fd_fl d);
   fs_var : fd_var d < bound /\ fd_var d <> pv /\ fd_var d <> sv;
@@ -295,6 +305,9 @@ Record winv (sc : list N) (e : senv) (st : sstate) (E : env) (stL : state) : Pro
   (* state *)
   wi_IS : forall c x, w_IS W c x -> nth_error (SyltSem.cells st) c = Some x;
   wi_IL : forall p lv, w_IL W p lv -> get_cell stL p = lv /\ (p < s_ncell stL)%positive;
+  wi_CS : forall ci cl, w_CS W ci cl -> nth_error (SyltSem.clos st) ci = Some cl;
+  wi_CL : forall fid c, w_CL W fid c -> pget fid (s_clos stL) = Some c /\ (fid < s_nclo stL)%positive;
+  wi_allvis : forall d, In d (w_funs W) -> In (fd_var d) (fnames fl);
   wi_clos : forall d, In d (w_funs W) ->
             nth_error (SyltSem.clos st) (fd_ci d) = Some (SyltSem.mkClos (fd_params d) (fd_body d) (fd_ef d)) /\
             pget (fd_fid d) (s_clos stL) = Some (mkClosure (fd_Ef d) (map fmt_var (fd_params d)) (fbody d)) /\
@@ -351,10 +364,12 @@ Lemma winv_states_gen sc e st E stL st' stL' :
   (s_nclo stL <= s_nclo stL')%positive ->
   winv fl W sc e st' E stL'.
 Proof.
-  intros [H1 H2 H3 H4 H5 H6 H7 H8 H9 H10 H11 H12 H13] Hs Hc Hcl Hl Hn Hlc Hnc.
+  intros [H1 H2 HCS HCL Hav H3 H4 H5 H6 H7 H8 H9 H10 H11 H12 H13] Hs Hc Hcl Hl Hn Hlc Hnc.
   constructor; auto.
   - intros c x Hx. rewrite (Hs c x Hx). apply H1. exact Hx.
   - intros p lv Hp. destruct (H2 p lv Hp) as [Ha Hb]. split; [rewrite (Hl p lv Hp); exact Ha | lia].
+  - intros ci cl Hx. pose proof (HCS ci cl Hx) as Hn0. rewrite Hc; [exact Hn0 | apply nth_error_Some; congruence].
+  - intros fid c0 Hx. destruct (HCL fid c0 Hx) as [Ha Hb]. split; [rewrite (Hlc _ Hb); exact Ha | lia].
   - intros d Hd. destruct (H3 d Hd) as (Ha & Hb & Hcc & Hf & Hci).
     split; [rewrite (Hc _ Hci); exact Ha|]. split; [rewrite (Hlc _ Hf); exact Hb|].
     split; [intros x p Hx; specialize (Hcc x p Hx); lia|]. split; lia.
@@ -385,7 +400,7 @@ Lemma winv_env sc e st E stL sc' e' E' :
   (forall d, In d (w_funs W) -> In (fd_var d) (fnames fl) -> fvisL E' d) ->
   (forall d, In d (w_funs W) -> In (fd_var d) (fnames fl) -> incl (fd_sc d) sc' /\ incl (fd_fl d) fl) ->
   winv fl W sc' e' st E' stL.
-Proof. intros [H1 H2 H3 H4 H5 H6 H7 H8 H9 H10 H11 H12 H13] A B C D F G. constructor; auto. Qed.
+Proof. intros [H1 H2 HCS HCL Hav H3 H4 H5 H6 H7 H8 H9 H10 H11 H12 H13] A B C D F G. constructor; auto. Qed.
 
 (* every name a callable function's body can see, and the function names, are user variables *)
 Lemma winv_fvis_bound sc e st E stL d g :
